@@ -141,6 +141,36 @@ DESC = {
     "C20-r4m1": "_merge: a default table is never replaced by a user scalar/array",
     "C20-r4m2": "os.path.expandvars on the user's file",
     "C20-r4m3": "_merge depth guard on a mutable default argument (path list grows across calls)",
+    "C01-r5m1": "sqlite overlap test endtime > ? (zero-length event at exactly the epoch / window start missing)",
+    "C01-r5m2": "peewee drops top-level data keys whose value is null",
+    "C01-r5m3": "sqlite on-open housekeeping de-duplicates content-identical events",
+    "C02-r5m1": "memory delete: index -1 for a missing id pops the newest event",
+    "C02-r5m2": "memory replace merges data with dict.update",
+    "C02-r5m3": "sqlite replace: SET endtime = starttime + ? (right-hand side sees the old start)",
+    "C03-r5m1": "sqlite window read split into two scans, LIMIT applied to both",
+    "C03-r5m2": "peewee prefilter from MAX(timestamp <= start) (assumes events never overlap)",
+    "C03-r5m3": "sqlite on-open clean-up deletes endtime <= starttime (zero-length events, after a reopen)",
+    "C04-r5m1": "sqlite bulk insert followed by a table-wide delete of zero/negative-length events",
+    "C04-r5m2": "peewee update_bucket: loop variable shadows the addressed bucket's row",
+    "C04-r5m3": "Datastore.delete_bucket treats ids with glob characters as fnmatch patterns",
+    "C05-r5m1": "peewee update_bucket merges the data dict instead of replacing it",
+    "C05-r5m2": "memory update_bucket of a missing bucket raises KeyError",
+    "C05-r5m3": "create_bucket lower-cases the hostname",
+    "C06-r5m1": "sqlite idle-flush threading.Timer commits from another thread at an arbitrary instant",
+    "C06-r5m2": "Datastore drops falsy storage kwargs (enable_lazy_commit=False ignored)",
+    "C06-r5m3": "peewee deletes event-less buckets on open",
+    "C07-r5m1": "sqlite insert_one shortens earlier events that are still running when the new one starts",
+    "C07-r5m2": "peewee drops data keys whose value is None or ''",
+    "C07-r5m3": "heartbeat_reduce skips a zero-length heartbeat inside the last event whatever its data",
+    "C12-r5m1": "query_bucket clamps the window end to now() when the window straddles the wall clock",
+    "C12-r5m2": "query_bucket_eventcount reimplemented as len(query_bucket(...))",
+    "C12-r5m3": "QString.parse unescapes backslashes (bucket ids with two consecutive backslashes)",
+    "C14-r5m1": "migration drops events that repeat another event's timestamp, duration and data",
+    "C14-r5m2": "sqlite create_bucket keeps only truthy columns (name '' becomes NULL)",
+    "C14-r5m3": "migration check skipped in the testing profile",
+    "C18-r5m1": "re-opened handle's last_commit stays None until its first commit (age rule skipped)",
+    "C18-r5m2": "ages of an hour or more treated as a clock jump: timer restarted without committing",
+    "C18-r5m3": "zero-duration single inserts exempt from the age rule",
 }
 
 
@@ -161,7 +191,7 @@ def main():
         m["breaks_property"] = own
         m["change"] = DESC.get(name, "")
         m["needs_to_manifest"] = " ".join(needs)[:900] if needs else notes[:600]
-        m["author"] = "independent sub-agent, round %d; saw only the property text and a private worktree" % (4 if "-r4" in name else 3 if "-r3" in name else 2 if "-r2" in name else 1)
+        m["author"] = "independent sub-agent, round %d; saw only the property text and a private worktree" % (5 if "-r5" in name else 4 if "-r4" in name else 3 if "-r3" in name else 2 if "-r2" in name else 1)
         json.dump(m, open(mp, "w"), indent=1)
         det = []
         first = ""
@@ -176,7 +206,7 @@ def main():
         rows.append((name, own, DESC.get(name, ""), "yes (%s)" % first if own in det else "**no**", ", ".join(c for c in det if c != own) or "—", ", ".join(harness) or ""))
     out = ["## Appendix F — seeded changes and the checks that catch them", "",
            "Generated by `tools/appendix_f.py` from `seeded/*/meta.json` (each change applied to a scratch worktree,",
-           "`VERIF_REPO=<worktree> check.py <ID> --tier quick`). `-m*` = first round, `-r2m*` / `-r3m*` / `-r4m*` = second / third / fourth round (agents were",
+           "`VERIF_REPO=<worktree> check.py <ID> --tier quick`). `-m*` = first round, `-r2m*` … `-r5m*` = second … fifth round (agents were",
            "told which ideas had been used and asked for other mechanisms). \"own check\" = the check of the property the change was written against.", "",
            "| id | change | own check (first oracle) | also caught by |", "|----|--------|--------------------------|----------------|"]
     for name, own, desc, owns, others, harness in rows:
